@@ -22,6 +22,12 @@ def gen(rng, i, tier):
     f, _ = data(rng, q, kind=str(rng.choice(["noise", "smooth"])))
     dg, df = unc(rng, r), unc(rng, q)
     cutoff = float(rng.uniform(r[1], max(r[-1] * 0.6, r[2])))
+    if rng.random() < 0.12:
+        # a clean g(r): exactly 0 below the first peak, i.e. on the whole [0, cutoff] window — its uncertainties are not
+        g = g.copy()
+        g[r <= cutoff] = 0.0
+        if dg is None or not np.any(dg):
+            dg = np.full(len(r), 0.05)
     desc = bool(rng.random() < 0.15)
     if desc:
         # the same physical data listed from high Q to low Q (time-of-flight order): every variant must still agree
